@@ -79,6 +79,10 @@ def judge_save(doc, model, how, tmpdir, tag):
         A[d] = b""
     E = rdf_adjust(E, A)
     out += DL.compare_states(E, A, what=f"saved-{how}")
+    # what the history added through add_file (and did not delete afterwards) is what a reader of the file sees
+    for uri, data in model.added_bytes.items():
+        if uri not in model.deleted and uri not in model.overwritten and A.get(uri) != data:
+            out.append((f"saved-{how}:added-file-{'missing' if uri not in A else 'altered'}", {"uri": uri}))
     if pkg.parts.get("mimetype") != E.get("mimetype"):
         out.append((f"saved-{how}:mimetype-differs", {"expected": E.get("mimetype"), "got": pkg.parts.get("mimetype")}))
     # reopen with odfdo: the same content must come back through get_part
@@ -163,7 +167,7 @@ def run_case(case, res, rng=None):
                 if v:
                     return [(m, dict(d, cycle=ci)) for m, d in v]
             # cycles may save again at the same place (stale members of an earlier save must go)
-            v, doc2 = judge_save(doc, model, cyc["how"], tmp, "same" if case.get("same_target") else f"{ci}")
+            v, doc2 = judge_save(doc, model, cyc["how"], tmp, ("same" if case.get("same_target") else f"{ci}") + str(case.get("name_key", "")))
             if res is not None:
                 res.judge()
                 res.cls((srckind, cyc["how"], f"cycle{ci}", "parsed=" + parsed, "edits=" + "+".join(sorted(kinds)) if kinds else "edits=none", "same-target" if case.get("same_target") else ""), True)
@@ -177,8 +181,11 @@ def gen_case(rng):
     cycles = []
     for _ in range(rng.choice([1, 1, 2, 3])):
         n = rng.choice([0, 0, 1, 2, 3, 5])
-        cycles.append({"edits": DL.gen_edits(rng, n), "how": rng.choice(HOWS), "flat": rng.random() < 0.15})
-    return {"source": DL.gen_source(rng), "cycles": cycles, "same_target": rng.random() < 0.4}
+        edits = DL.gen_edits(rng, n)
+        if rng.random() < 0.2:
+            edits = DL.readd_theme(rng, edits)  # a file added, deleted, added again with the same content
+        cycles.append({"edits": edits, "how": rng.choice(HOWS), "flat": rng.random() < 0.15})
+    return {"source": DL.gen_source(rng), "cycles": cycles, "same_target": rng.random() < 0.4, "name_key": rng.choice(["", "", "k%d" % rng.randrange(500)])}
 
 
 def run(ctx, res):
